@@ -191,8 +191,8 @@ def validation_shape(pdb):
     for i in f.all_insts():
         if i.op == "add":
             kk, tt = flat(vf.expr(f, i.ref))
-            if kk == SKI + 2 + PATHSEG and len(tt) == 1 and tt[0][0] == "phi":
-                return
+            if SKI <= kk <= SKI + 2 + PATHSEG + 8 and len(tt) == 1 and tt[0][0] == "phi":
+                return      # the advance is there; whether its constant is right is C11.R4's question
             if kk == SKI + 2 + PATHSEG and len(tt) == 1 and tt[0][0] == "load" and vf.last_field(tt[0][1]) == "rtr_signature_seg.sig_len" and \
                     vf.root_of(tt[0][1])[0] == "phi" and not f.calls("sig_seg_size"):
                 return      # same loop, the length read from a segment directly
